@@ -59,11 +59,12 @@ class ForeignXmlGen:
         if tag == "prov:label":
             if r.random() < 0.4:
                 el.set("{%s}lang" % XML, r.choice(["en", "fr"]))
-            el.text = r.choice(["a label", "étiquette", "x < y & z"])
+            el.text = r.choice(["a label", "étiquette", "x < y & z", "  padded label\n"])
             return
         k = r.random()
         if k < 0.25:
-            el.text = r.choice(["plain text", "", "with \"quotes\"", "ünï", "multi\nline"])
+            el.text = r.choice(["plain text", "", "with \"quotes\"", "ünï", "multi\nline", "  padded on both sides\n", " ", "\ttab first",
+                                "Cafe\u0301 \u212b"])
         elif k < 0.35:
             el.set("{%s}type" % XSI, "xsd:string"); el.text = r.choice(["typed string", ""])
         elif k < 0.47:
@@ -79,7 +80,7 @@ class ForeignXmlGen:
         elif k < 0.86:
             el.set("{%s}type" % XSI, "xsd:QName"); el.text = self.name(prefixes, default)
         elif k < 0.92:
-            el.set("{%s}lang" % XML, r.choice(["en", "fr"])); el.text = r.choice(["bonjour", "hello"])
+            el.set("{%s}lang" % XML, r.choice(["en", "fr"])); el.text = r.choice(["bonjour", "hello", " hello \n"])
         else:
             el.set("{%s}type" % XSI, r.choice([prefixes[0] + ":custom", prefixes[-1] + ":custom", "xsd:gYear", "xsd:float"])); el.text = "abc"
 
